@@ -3,9 +3,12 @@ import ShellOp.Model.Startup
 /-! Line-protocol suite for C06 (startup order). Core-only.
 
 ```
-hook <id> v=<0|1> os=<ORDER|-> sched=<0|1> fails=<0101|-> kube=<name:group:execSync,…|-> [kfail=<pos,pos,…|->]    -> ok
+hook <id> v=<0|1> os=<ORDER|-> sched=<0|1> fails=<0101|-> kube=<name:group:execSync,…|-> [kfail=<pos,pos,…|->] [opts=<name:letters,…|->]    -> ok
        (kfail: the fault sequence of the hook's EnableKubernetesBindings task — position of the binding whose
-        monitor cannot be created in the 1st, 2nd, … attempt)
+        monitor cannot be created in the 1st, 2nd, … attempt;
+        opts: the option keys of the binding the property does not mention — w/W waitForSynchronization false/true,
+        k keepFullObjectsInMemory=false, j jqFilter, a executeHookOnEvent, m watchEvent, i includeSnapshotsFrom.
+        Neither the model nor the oracles read them: the property holds whatever they are.)
 order                      -> ids of GetHooksInOrder(OnStartup)
 oracle order got=<ids>
 bootstrap                  -> S<id> (onStartup HookRun) K<id> (EnableKubernetesBindings) C<id> (EnableScheduleBindings) …
